@@ -79,6 +79,23 @@ Theorem C07_report_sound : forall sels rep, reportb sels rep = true ->
   forall k, get rep k = list_sum (map (fun sel => count_occ Nat.eq_dec sel k) sels).
 Proof. exact reportb_sound. Qed.
 
+(* the transcription with the source's constants as parameters (sort direction, cap offset, increment, initial count; read
+   from core_ranking.py on every run and re-checked against this statement by a generated proof obligation) is [step] at
+   the values (ascending, 0, 1, 0), and each of the four matters *)
+Theorem C07_source_constants : forall s L cap, pstep false 0 1 0 s L cap = step s L cap.
+Proof. exact pstep_default. Qed.
+
+Theorem C07_source_constants_matter :
+  let ops := map (fun c => ([0; 1; 2], c)) [2; 2; 2]%Z in
+  valid_runb [] ops (prun false 0 1 0 [] ops) = true /\
+  valid_runb [] ops (prun true 0 1 0 [] ops) = false /\
+  valid_runb [] ops (prun false 1 1 0 [] ops) = false /\
+  valid_runb [] ops (prun false (-1) 1 0 [] ops) = false /\
+  valid_runb [] ops (prun false 0 2 0 [] ops) = false /\
+  valid_runb [] ops (prun false 0 0 0 [] ops) = false /\
+  valid_runb [] ops (prun false 0 1 1 [] ops) = false.
+Proof. exact source_constants_matter. Qed.
+
 Print Assumptions C07_step_valid.
 Print Assumptions C07_checker_sound.
 Print Assumptions C07_subset.
@@ -92,3 +109,5 @@ Print Assumptions C07_model_fair.
 Print Assumptions C07_checked_history_fair.
 Print Assumptions C07_selection_history_fair.
 Print Assumptions C07_report_sound.
+Print Assumptions C07_source_constants.
+Print Assumptions C07_source_constants_matter.
